@@ -221,10 +221,12 @@ def r4_enumerator(ctx, rep, R='C19.R4'):
     okeq = False
     if eq is not None:
         rets = [n for n in ast.walk(eq.node) if isinstance(n, ast.Return)]
-        okeq = len(rets) == 1 and isinstance(rets[0].value, ast.Compare) and \
-            isinstance(rets[0].value.ops[0], ast.Eq) and \
-            norm(rets[0].value.left).endswith('.ident') and \
-            norm(rets[0].value.comparators[0]).endswith('.ident')
+        from .common import expander
+        rv = expander(eq.node)(rets[0].value) if len(rets) == 1 and rets[0].value is not None else None
+        okeq = rv is not None and isinstance(rv, ast.Compare) and \
+            isinstance(rv.ops[0], ast.Eq) and \
+            norm(rv.left).endswith('.ident') and \
+            norm(rv.comparators[0]).endswith('.ident')
     rep.check(okeq, R, 'ThreadProxy.__eq__ compares ident', 'ThreadProxy.__eq__ does not compare '
               'thread identifiers', key='proxy:eq', func='threadsupport.ThreadProxy.__eq__')
     # hash/eq agreement: membership tests in hashed containers use __hash__ first
